@@ -12,6 +12,7 @@ from dataclasses import dataclass, field
 CONTRACTS: dict[str, "Contract"] = {}
 SPECS: dict[str, object] = {}  # name -> python function (pure; if/return chains and let-bindings only)
 LEMMAS: dict[str, "Lemma"] = {}
+MODEL_LEMMAS: dict[str, object] = {}  # name -> callable() -> [(suffix, hyps, goal)]: facts a builtin model hands out that are CONSEQUENCES of its stated contract (proved every run)
 
 
 @dataclass
@@ -52,13 +53,15 @@ class Contract:
     inline: bool = False
     ghost_params: dict[str, str] = field(default_factory=dict)
     notes: str = ""
-    hints: dict[str, list[str]] = field(default_factory=dict)
+    hints: dict[str, list[str]] = field(default_factory=dict)  # {cut anchor | "return": [lemma instance hints]} assumed on every path reaching that point
     defs: dict[str, str] = field(default_factory=dict)  # macro name -> lambda source, usable in every contract expression
     reads: dict[str, list[str]] | None = None  # parameter -> the only fields of that object the function may read (reads frame)
     call_site: dict[str, dict[str, str]] = field(default_factory=dict)  # callee short name -> clauses over callee_<param> and the caller's state
     registry_requires: dict[str, str] = field(default_factory=dict)  # obligations at every invocation of a registry entry
     ensures_each: dict[str, str] = field(default_factory=dict)  # clauses over `node` that hold of EVERY element of the returned list of nodes
     comp_assume: dict[str, str] = field(default_factory=dict)  # comprehension target -> ASSUMED fact about every element (trusted lemma, validated at run time)
+    cuts: dict[str, dict[str, str]] = field(default_factory=dict)  # straight-line cut points: {source prefix of a top-level statement: {clause name: invariant}}
+    asserts: dict[str, dict[str, str]] = field(default_factory=dict)  # {source prefix of a statement: {name: clause}}: proved on every path reaching the statement, then assumed (cut rule)
     collector: str | None = None  # name of the local list the function appends its results to (standard collector invariant for its loops)
 
 
@@ -83,10 +86,11 @@ class Lemma:
     goal: str
     notes: str = ""
     trusted: bool = False  # an AXIOM about a library operation (validated at run time), instantiated by hints, never proved
+    ih: list[str] = field(default_factory=list)  # induction hypotheses: available to the PROOF of the lemma only, never required of (or given to) a user of an instance
 
 
-def lemma(name, props, vars, hyps, goal, notes="", trusted=False):
-    LEMMAS[name] = Lemma(name, props, vars, hyps, goal, notes, trusted)
+def lemma(name, props, vars, hyps, goal, notes="", trusted=False, ih=()):
+    LEMMAS[name] = Lemma(name, props, vars, hyps, goal, notes, trusted, list(ih))
     return LEMMAS[name]
 
 
